@@ -11,7 +11,8 @@
 (***************************************************************************)
 EXTENDS Graph, Json, IOUtils
 
-CONSTANTS Depth, MaxBatch
+CONSTANTS Depth, MaxBatch,
+          WithBundles      \* TRUE: batches may also be delivered as one bundle chunk (C18)
 
 Dag == JsonDeserialize(IOEnv.DAG)
 Defs == Dag.changes
@@ -20,7 +21,7 @@ chg == [h \in {Defs[i].hash : i \in DOMAIN Defs} |->
           IN  [actor |-> d.actor, seq |-> d.seq, startOp |-> d.startOp, nops |-> d.nops,
                deps |-> ToSet(d.deps)]]
 Ids == DOMAIN chg
-Vias == {"apply", "each", "loadinc"}
+Vias == {"apply", "each", "loadinc"} \cup (IF WithBundles THEN {"bundle"} ELSE {})
 
 VARIABLES applied, queue, hist
 vars == <<applied, queue, hist>>
